@@ -9,3 +9,5 @@ cd harness
 cargo build --release --offline --target-dir target/std --features cfg-std
 cargo build --release --offline --target-dir target/alloc --features cfg-alloc
 cargo build --release --offline --target-dir target/nostd
+cargo build --release --offline --target-dir target/std-co --features cfg-std,co
+cargo build --release --offline --target-dir target/alloc-co --features cfg-alloc,co
